@@ -37,6 +37,12 @@ impl OrphanBroker {
     }
 
     fn search_orphan_leader(&self, leader_hash: ParentHash) {
+        // `is_pending_verify` must be read before the status, like in `process_lonely_block`: the
+        // verify thread publishes the result of the leader (block ext, snapshot, block status)
+        // before it removes the hash from `is_pending_verify`. In the opposite order the leader
+        // can be seen as "not stored yet" and then as "not pending", and its descendants stay in
+        // the orphan pool although nothing is going to release them.
+        let leader_is_pending_verify = self.is_pending_verify.contains(&leader_hash);
         let leader_status = self.shared.get_block_status(&leader_hash);
 
         if leader_status.eq(&BlockStatus::BLOCK_INVALID) {
@@ -49,7 +55,6 @@ impl OrphanBroker {
             return;
         }
 
-        let leader_is_pending_verify = self.is_pending_verify.contains(&leader_hash);
         if !leader_is_pending_verify && !leader_status.contains(BlockStatus::BLOCK_STORED) {
             trace!(
                 "orphan leader: {} not stored {:?} and not in is_pending_verify: {}",
